@@ -53,6 +53,7 @@ type Cfg struct {
 	Src    string          `json:"src"`
 	Groups json.RawMessage `json:"groups"`
 	Str    bool            `json:"str"`
+	Dep    []int           `json:"dep"`
 	A      [][]int         `json:"A"`
 	F      [][]int         `json:"F"`
 
@@ -198,6 +199,10 @@ var memKinds = map[string]kindInfo{
 	"pt":  {"*rt.St", "rt.MemMkPt", "rt.MemPrPt", 6},
 	"ssl": {"[]string", "rt.MemMkSsl", "rt.MemPrSsl", 7},
 	"mp":  {"map[string]int", "rt.MemMkMp", "rt.MemPrMp", 8},
+	"isl": {"[]int", "rt.MemMkIsl", "rt.MemPrIsl", 7},
+	"ip2": {"*rt.P2", "rt.MemMkIp2", "rt.MemPrIp2", 6},
+	"sp2": {"[]rt.P2", "rt.MemMkSp2", "rt.MemPrSp2", 7},
+	"mpi": {"map[int]int", "rt.MemMkMpi", "rt.MemPrMpi", 8},
 }
 
 func kindRank(ks []string) int {
